@@ -13,6 +13,13 @@ Case syntax (JSON, also the replay payload)
   {"layout": "schema", "name": <one of SCHEMA_CASES>}
   age token   = [n, d]  (the float (10 n + d) / 1e7, i.e. n micro-units after the 6-digit rounding, |d| <= 4) | "nan" | "inf" | "-inf"
   value token = "p/q" | "nan" | "inf" | "-inf"
+Optional keys of a table case (how the very same table is handed over; default = plain float columns, `Data.from_dataframe(df, "<layout>")`):
+  "tnum" / "cols" / "ecols" / "ccols": dtype kind of the TIME / feature / event / covariate columns (NUM_KINDS are numeric for the reader)
+  "index": "set" | "setrev" | "id" | "rowdup" | "rowstr" | "rownamed"   (ID / TIME as index levels in either order; meaningless row labels)
+  "featnames": names of the feature columns (feature k of the rows is column featnames[k]);  "colorder": order of all the columns
+  "evnames": [event time column, event indicator column] (passed to the reader through factory_kws)
+  "opts": {"sort_index": bool, "drop_full_nan": bool, "warn_empty_column": bool}   (keyword options of the reader)
+  "entry": "df" | "csv" (Data.from_csv_file on the table written to disk) | "reader" (a reader instance as data_type) | "enum" | "upper"
 """
 from __future__ import annotations
 
@@ -53,6 +60,12 @@ LEAN = dict(
         "values outside the float32 range (|v| > 3.4e38, finite in the table) become inf in the tensor without an error; not generated, not claimed",
         "schema problems the property does not list (missing / swapped / duplicated columns, not a DataFrame) are only required to raise; the exception class is recorded in the evidence",
         "bool-typed TIME / feature columns are numeric for pandas and are accepted as 0/1 by the code; not treated as malformed",
+        "reader options: sort_index=True is sent to the model as the same table with its rows in (ID, TIME) order (pandas contract above); "
+        "drop_full_nan=False (entirely missing rows kept as visits without observation, resp. refused by the event / covariate checks) is not "
+        "modelled: such cases are judged by the harness predicate only",
+        "membership `id in data` is only exercised for string identifiers (documented key type; it raises LeaspyTypeError for the integer "
+        "identifiers the readers accept); slicing an event-only Data object raises AttributeError (Data.from_individuals reads "
+        "`observations.shape`): outside the statement (tables -> tensors), not exercised",
         "joint layout: the tolerance of the cross check is compared on integers (micro-units) in the model; an observed event dated "
         "exactly 0.001 before the latest visit is decided by the double-precision subtraction in the code (70.5 - 70.501 is refused, "
         "1.0 - 1.001 is accepted); the model accepts; such tables are not generated (generated gaps: <= 900 or >= 1001 micro-units)",
@@ -179,6 +192,52 @@ def frac_of(x):
 FEATS = ["Y0", "Y1", "Y2", "Y3"]
 TIME_KINDS_BAD = ["str", "object", "datetime", "complex"]
 COL_KINDS_BAD = ["str", "object", "complex"]
+# dtypes that are numeric for the reader: python floats / ints, numpy float32 / int32, pandas nullable Int64 / Float64 (pd.NA = missing), bool
+NUM_KINDS = ("float", "int", "f32", "i32", "Int64", "Float64", "Float32", "bool")
+OPT_DEFAULTS = {"sort_index": False, "drop_full_nan": True, "warn_empty_column": True}
+
+
+def opt(case, name):
+    return (case.get("opts") or {}).get(name, OPT_DEFAULTS[name])
+
+
+def feat_names(case, dim=None):
+    if case.get("featnames"):
+        return list(case["featnames"])
+    if dim is None:
+        dim = len(case["rows"][0][2]) if case["rows"] and case["layout"] != "event" else 0
+    return FEATS[:dim]
+
+
+def ev_names(case):
+    return list(case.get("evnames") or ["EVENT_TIME", "EVENT_BOOL"])
+
+
+def cov_names(case):
+    return [f"C{k}" for k in range(case.get("ncov", 0))]
+
+
+def expected_headers(case):
+    """feature names in the order of the columns of the table"""
+    names = feat_names(case)
+    if case.get("colorder"):
+        return [c for c in case["colorder"] if c in names]
+    return names
+
+
+def row_dropped(case, r):
+    """rows the reader drops (default option drop_full_nan=True): every cell besides the identifier and the age is missing"""
+    if not opt(case, "drop_full_nan"):
+        return False
+    lay = case["layout"]
+    if lay == "event":
+        return r[1] == "nan" and r[2] == "nan"
+    drop = all(v == "nan" for v in r[2])
+    if lay == "joint":
+        drop = drop and r[3] == "nan" and r[4] == "nan"
+    if lay == "cov":
+        drop = drop and all(v == "nan" for v in r[3])
+    return drop
 
 
 def typed_column(pd, np, kind, floats):
@@ -194,7 +253,41 @@ def typed_column(pd, np, kind, floats):
         return [complex(x) for x in floats]
     if kind == "int":
         return [int(x) for x in floats]
+    if kind == "f32":
+        return np.array(floats, dtype=np.float32)
+    if kind == "i32":
+        return np.array([int(x) for x in floats], dtype=np.int32)
+    if kind == "Int64":
+        return pd.array([None if x != x else int(x) for x in floats], dtype="Int64")
+    if kind in ("Float64", "Float32"):
+        return pd.array([None if x != x else x for x in floats], dtype=kind)
+    if kind == "bool":
+        return np.array([bool(x) for x in floats], dtype=bool)
     raise ValueError(kind)
+
+
+def compatible_kinds(env, tokens, age=False):
+    """numeric dtypes that carry these tokens without changing any number (missing stays missing, inf stays inf)"""
+    np = env.np
+    fin, has_nan, has_inf = [], False, False
+    for t in tokens:
+        if t == "nan":
+            has_nan = True
+        elif t in ("inf", "-inf"):
+            has_inf = True
+        else:
+            fin.append(age_float(t) if age else val_float(t))
+    out = ["float", "Float64"]
+    if all(float(np.float32(x)) == x for x in fin):
+        out += ["f32", "Float32"]
+    ints = all(float(x).is_integer() and abs(x) < 2 ** 31 for x in fin)
+    if ints and not has_inf:
+        out.append("Int64")
+        if not has_nan:
+            out += ["int", "i32"]
+            if all(x in (0.0, 1.0) for x in fin) and not age:
+                out.append("bool")
+    return out
 
 
 # --------------------------------------------------------------------------------------------- implementation side
@@ -208,6 +301,12 @@ class Env:
         from leaspy.exceptions import LeaspyDataInputError, LeaspyInputError
         from leaspy.io.data import Data, Dataset
         from leaspy.io.data.individual_data import IndividualData
+        from leaspy.io.data.factory import DataframeDataReaderNames, dataframe_data_reader_factory
+        import tempfile
+        self.factory, self.ReaderNames = dataframe_data_reader_factory, DataframeDataReaderNames
+        self.tmpdir = tempfile.gettempdir()
+        self.counter = 0            # table cases seen (the deeper checks are sampled on it in the quick tier)
+        self.deep_every = 1
         self.np, self.pd, self.torch = np, pd, torch
         self.Data, self.Dataset, self.IndividualData = Data, Dataset, IndividualData
         self.DIE, self.LIE = LeaspyDataInputError, LeaspyInputError
@@ -230,34 +329,83 @@ def build_df(env, case):
         tk = case.get("tnum", "float")
         cols["TIME"] = typed_column(pd, np, tk, [age_float(r[1]) for r in rows])
         ckinds = case.get("cols") or ["float"] * (len(rows[0][2]) if rows else 0)
+        names = feat_names(case, len(ckinds))
         for k, ck in enumerate(ckinds):
-            cols[FEATS[k]] = typed_column(pd, np, ck, [val_float(r[2][k]) for r in rows])
+            cols[names[k]] = typed_column(pd, np, ck, [val_float(r[2][k]) for r in rows])
+    ek = case.get("ecols") or ["float", "float"]
+    tn, bn = ev_names(case)
     if lay == "event":
-        cols["EVENT_TIME"] = [age_float(r[1]) for r in rows]
-        cols["EVENT_BOOL"] = [val_float(r[2]) for r in rows]
+        cols[tn] = typed_column(pd, np, ek[0], [age_float(r[1]) for r in rows])
+        cols[bn] = typed_column(pd, np, ek[1], [val_float(r[2]) for r in rows])
     if lay == "joint":
-        cols["EVENT_TIME"] = [age_float(r[3]) for r in rows]
-        cols["EVENT_BOOL"] = [val_float(r[4]) for r in rows]
+        cols[tn] = typed_column(pd, np, ek[0], [age_float(r[3]) for r in rows])
+        cols[bn] = typed_column(pd, np, ek[1], [val_float(r[4]) for r in rows])
     if lay == "cov":
+        ck = case.get("ccols") or ["float"] * case["ncov"]
         for k in range(case["ncov"]):
-            cols[f"C{k}"] = [val_float(r[3][k]) for r in rows]
+            cols[f"C{k}"] = typed_column(pd, np, ck[k], [val_float(r[3][k]) for r in rows])
     df = pd.DataFrame(cols)
-    if case.get("index") == "set" and lay in ("visit", "joint", "cov"):
+    if case.get("colorder"):
+        df = df[list(case["colorder"])]
+    ix = case.get("index")
+    if ix == "set" and lay in ("visit", "joint", "cov"):
         df = df.set_index(["ID", "TIME"])
-    elif case.get("index") == "id":
+    elif ix == "setrev" and lay in ("visit", "joint", "cov"):
+        df = df.set_index(["TIME", "ID"])
+    elif ix == "id":
         df = df.set_index("ID")
+    elif ix == "rowdup":
+        df.index = [7] * len(df)
+    elif ix == "rowstr":
+        df.index = [f"r{k % 2}" for k in range(len(df))]
+    elif ix == "rownamed":
+        df.index = pd.Index([len(df) - k for k in range(len(df))], name="row")
     return df
 
 
 def reader_args(case):
+    """(data_type, keyword arguments of Data.from_dataframe): factory_kws of the reader + the reader's own options"""
     lay = case["layout"]
+    kws = dict(case.get("opts") or {})
     if lay == "visit":
-        return "visit", {}
-    if lay == "event":
-        return "event", ({"factory_kws": {"nb_events": case["nb"]}} if case.get("nb") is not None else {})
-    if lay == "joint":
-        return "joint", ({"factory_kws": {"nb_events": case["nb"]}} if case.get("nb") is not None else {})
-    return "covariate", {"factory_kws": {"covariate_names": [f"C{k}" for k in range(case["ncov"])]}}
+        return "visit", kws
+    if lay in ("event", "joint"):
+        fk = {}
+        if case.get("nb") is not None:
+            fk["nb_events"] = case["nb"]
+        if case.get("evnames"):
+            fk["event_time_name"], fk["event_bool_name"] = case["evnames"]
+        if fk:
+            kws["factory_kws"] = fk
+        return lay, kws
+    kws["factory_kws"] = {"covariate_names": [f"C{k}" for k in range(case["ncov"])]}
+    return "covariate", kws
+
+
+def ingest(env, case, df, dt, kws):
+    """The table through the entry point the case names (default: Data.from_dataframe(df, "<layout>", **kws))."""
+    entry = case.get("entry", "df")
+    if entry == "csv":
+        import os
+        import tempfile
+        kw = dict(kws)
+        fk = kw.pop("factory_kws", {})
+        fd, path = tempfile.mkstemp(suffix=".csv", dir=env.tmpdir)
+        os.close(fd)
+        try:
+            df.to_csv(path, index=False)
+            return env.Data.from_csv_file(path, dt, facto_kws=fk, **kw)
+        finally:
+            os.unlink(path)
+    if entry == "reader":
+        kw = dict(kws)
+        fk = kw.pop("factory_kws", {})
+        return env.Data.from_dataframe(df, env.factory(dt, **fk), **kw)
+    if entry == "enum":
+        return env.Data.from_dataframe(df, env.ReaderNames(dt), **kws)
+    if entry == "upper":
+        return env.Data.from_dataframe(df, dt.upper() if len(dt) % 2 else dt.title(), **kws)
+    return env.Data.from_dataframe(df, dt, **kws)
 
 
 def snapshot(env, df):
@@ -292,25 +440,51 @@ def rank_of_value(kind, v):
     return None
 
 
-def canon_dataset(env, ds, kind):
-    """Observable tensor form of a Dataset, in the syntax of the Lean driver; also returns a dict for the predicate."""
+def canon_dataset(env, ds, kind, case=None, full=False):
+    """Observable tensor form of a Dataset, in the syntax of the Lean driver; also returns a dict for the predicate.
+    The feature axis is listed in the order of the case's features (feature k = column featnames[k]): the dataset's own
+    order is that of its `headers`, which must be the feature columns in table order (checked by the predicate)."""
     torch = env.torch
     out = {"ids": [rank_of_value(kind, i) for i in ds.indices]}
     s = []
     s.append("ids=" + fmt_list(out["ids"]))
+    out["meta"] = {"n_individuals": ds.n_individuals, "dimension": ds.dimension,
+                   "headers": None if ds.headers is None else list(ds.headers),
+                   "evnames": [ds.event_time_name, ds.event_bool_name],
+                   "covnames": None if ds.covariate_names is None else list(ds.covariate_names)}
     if ds.timepoints is not None:
+        perm = None
+        if case is not None and ds.headers is not None:
+            names = feat_names(case)
+            if sorted(map(str, ds.headers)) == sorted(names) and len(set(names)) == len(names):
+                perm = [list(ds.headers).index(n) for n in names]
+                if perm == list(range(len(names))):
+                    perm = None
+            elif list(ds.headers) != names:
+                out["headers_unrelated"] = True
+
+        def pf(row):      # one feature row in the order of the case
+            return row if perm is None else [row[j] for j in perm]
         out["dtypes"] = (str(ds.timepoints.dtype), str(ds.values.dtype), str(ds.mask.dtype))
         out["nvis"] = list(ds.n_visits_per_individual)
         out["nmax"] = int(ds.n_visits_max)
         out["nvt"] = ds.n_visits
         out["times_f"] = [[float(x) for x in r] for r in ds.timepoints.tolist()]
         out["times"] = [[mu_of(x) for x in r] for r in out["times_f"]]
-        out["values"] = [[[frac_of(x) if math.isfinite(x) else x for x in v] for v in ind] for ind in ds.values.tolist()]
-        out["mask"] = [[[x for x in v] for v in ind] for ind in ds.mask.tolist()]
-        out["nobsind"] = ds.n_observations_per_ind_per_ft.tolist()
-        out["nobsft"] = ds.n_observations_per_ft.tolist()
+        out["values"] = [[pf([frac_of(x) if math.isfinite(x) else x for x in v]) for v in ind] for ind in ds.values.tolist()]
+        out["mask"] = [[pf([x for x in v]) for v in ind] for ind in ds.mask.tolist()]
+        out["nobsind"] = [pf(r) for r in ds.n_observations_per_ind_per_ft.tolist()]
+        out["nobsft"] = pf(ds.n_observations_per_ft.tolist())
         out["nobs"] = ds.n_observations
         out["shapes"] = (tuple(ds.timepoints.shape), tuple(ds.values.shape), tuple(ds.mask.shape))
+        if full:
+            try:
+                out["L2ft"] = pf([float(x) for x in ds.L2_norm_per_ft.tolist()])
+                out["L2"] = float(ds.L2_norm)
+                out["getters"] = [([float(x) for x in ds.get_times_patient(i).tolist()],
+                                   [pf(v) for v in ds.get_values_patient(i).tolist()]) for i in range(len(ds.indices))]
+            except Exception as e:  # noqa
+                out["getters_error"] = f"{type(e).__name__}: {e}"
 
         def fv(x):
             return fmt_rat(x) if isinstance(x, Fraction) else repr(x)
@@ -326,6 +500,7 @@ def canon_dataset(env, ds, kind):
         s.append("nobsft=" + fmt_list(out["nobsft"]))
         s.append(f"nobs={out['nobs']}")
     if ds.event_time is not None:
+        out["edtypes"] = (str(ds.event_time.dtype), str(ds.event_bool.dtype))
         out["etimes"] = [[mu_of(x) for x in r] for r in ds.event_time.tolist()]
         out["ebools"] = [[bool(x) for x in r] for r in ds.event_bool.tolist()]
         nb = len(out["etimes"][0]) if out["etimes"] else 0
@@ -337,6 +512,7 @@ def canon_dataset(env, ds, kind):
         else:
             s.append(ev)
     if ds.covariates is not None:
+        out["cdtype"] = str(ds.covariates.dtype)
         out["covs"] = ds.covariates.tolist()
         s.append("covs=" + "|".join(fmt_list(r) for r in out["covs"]))
     out["str"] = " ".join(s)
@@ -350,8 +526,9 @@ def table_tokens(env, case, tab):
     pool = id_pool(kind)
     rows = []
     df = tab.reset_index()
-    feats = [c for c in df.columns if c in FEATS]
-    covs = [c for c in df.columns if isinstance(c, str) and c.startswith("C") and c[1:].isdigit()]
+    feats = [c for c in feat_names(case) if c in df.columns]
+    covs = [c for c in cov_names(case) if c in df.columns]
+    tn, bn = ev_names(case)
 
     def vtok(x):
         if isinstance(x, float) and math.isnan(x):
@@ -365,15 +542,88 @@ def table_tokens(env, case, tab):
             return None
         idx = pool.index(sorted(pool)[r])
         if lay == "event":
-            rows.append([idx, [mu_of(rec["EVENT_TIME"]), 0], vtok(float(rec["EVENT_BOOL"]))])
+            rows.append([idx, [mu_of(rec[tn]), 0], vtok(float(rec[bn]))])
             continue
         row = [idx, [mu_of(rec["TIME"]), 0], [vtok(float(rec[f])) for f in feats]]
         if lay == "joint":
-            row += [[mu_of(rec["EVENT_TIME"]), 0], vtok(float(rec["EVENT_BOOL"]))]
+            row += [[mu_of(rec[tn]), 0], vtok(float(rec[bn]))]
         if lay == "cov":
             row.append([vtok(float(rec[c])) for c in covs])
         rows.append(row)
     return rows
+
+
+def frame_rows(env, case, frame):
+    """Rows of a table produced by leaspy (Data.to_dataframe / Dataset.to_pandas after reset_index) as exact tuples
+    (identifier rank, age as float, feature values in the order of the case (None = missing) [, event time, event code] [, covariates])."""
+    kind, lay = case["idkind"], case["layout"]
+    feats, covs = feat_names(case), cov_names(case)
+    tn, bn = ev_names(case)
+    out = []
+
+    def cell(x):
+        x = float(x)
+        return None if x != x else Fraction(x)
+    for rec in frame.to_dict(orient="records"):
+        row = [rank_of_value(kind, rec.get("ID"))]
+        if lay != "event":
+            row += [float(rec["TIME"]), tuple(cell(rec[f]) for f in feats)]
+        if lay in ("event", "joint"):
+            row += [float(rec[tn]), int(rec[bn])]
+        if lay == "cov":
+            row.append(tuple(int(rec[c]) for c in covs))
+        out.append(tuple(row))
+    return out
+
+
+def data_api(env, case, data):
+    """Facts about the `Data` object itself (independent of the tensors): the three orders it exposes, counters, names."""
+    f = {}
+    ids_dict = list(data.individuals)
+    f["ids"] = [rank_of_value(case["idkind"], i) for i in ids_dict]
+    f["iter_same"] = [ind.idx for ind in data] == ids_dict
+    f["map_same"] = list(data.iter_to_idx) == list(range(len(ids_dict))) and [data.iter_to_idx[k] for k in range(len(ids_dict))] == ids_dict
+    f["idx_same"] = all(ind.idx == i for i, ind in data.individuals.items())
+    f["n_individuals"] = data.n_individuals
+    f["positional"] = all(data[k].idx == i for k, i in enumerate(ids_dict))
+    # membership is documented for string identifiers only (IDType = str: `in` raises LeaspyTypeError for the integer identifiers
+    # the readers accept; not this property's matter)
+    f["contains"] = all((i in data) for i in ids_dict if isinstance(i, str))
+    f["headers"] = None if data.headers is None else list(data.headers)
+    f["dimension"] = data.dimension
+    f["n_visits"] = data.n_visits
+    f["nvis"] = [None if ind.timepoints is None else len(ind.timepoints) for ind in data.individuals.values()]
+    f["evnames"] = [data.event_time_name, data.event_bool_name]
+    f["covnames"] = None if data.covariate_names is None else list(data.covariate_names)
+    return f
+
+
+def sub_cohort(env, case, data, ds_full):
+    """`Data` restricted to some individuals (by position, reversed; and a slice): the rows of the tensors must be those of the
+    full dataset for these individuals, in the requested order. Returns a list of complaints."""
+    n = data.n_individuals
+    out = []
+    picks = [list(range(n - 1, -1, -1))] if n >= 2 else []
+    if n >= 3:
+        picks.append(slice(1, n))
+    for pick in picks:
+        want_pos = list(range(n))[pick] if isinstance(pick, slice) else pick
+        sub = data[pick]
+        ds = canon_dataset(env, env.Dataset(sub), case["idkind"], case)
+        if ds["ids"] != [ds_full["ids"][k] for k in want_pos]:
+            out.append(f"Data[{pick}] holds individuals {ds['ids']} instead of {[ds_full['ids'][k] for k in want_pos]}")
+            continue
+        for b, a in enumerate(want_pos):
+            nv = ds_full["nvis"][a]
+            same = (ds["nvis"][b] == nv and ds["times_f"][b][:nv] == ds_full["times_f"][a][:nv]
+                    and ds["values"][b][:nv] == ds_full["values"][a][:nv] and ds["mask"][b][:nv] == ds_full["mask"][a][:nv])
+            if "etimes" in ds_full:
+                same = same and ds.get("etimes", [None] * len(want_pos))[b] == ds_full["etimes"][a] and ds["ebools"][b] == ds_full["ebools"][a]
+            if "covs" in ds_full:
+                same = same and ds.get("covs", [None] * len(want_pos))[b] == ds_full["covs"][a]
+            if not same:
+                out.append(f"Data[{pick}]: row {b} of its dataset is not the row of individual {ds_full['ids'][a]} in the full dataset")
+    return out
 
 
 def run_impl(env, case):
@@ -384,11 +634,13 @@ def run_impl(env, case):
     except Exception as e:  # cannot even build the table with pandas: not a case
         res["build"] = f"{type(e).__name__}: {e}"
         return res
+    env.counter += 1
+    deep = (env.counter % env.deep_every) == 0
     snap = snapshot(env, df)
     dt, kws = reader_args(case)
     try:
         with core.quiet():
-            data = env.Data.from_dataframe(df, dt, **kws)
+            data = ingest(env, case, df, dt, kws)
         res["phase"]["data"] = "ok"
     except Exception as e:
         res["phase"]["data"] = env.err(e)
@@ -397,31 +649,45 @@ def run_impl(env, case):
         return res
     res["data_ids"] = [rank_of_value(case["idkind"], i) for i in data.individuals]
     try:
+        res["data_api"] = data_api(env, case, data)
+    except Exception as e:  # noqa
+        res["data_api_error"] = f"{type(e).__name__}: {e}"
+    frame0 = None
+    if deep:
+        try:
+            with core.quiet():
+                frame0 = data.to_dataframe()
+            res["frame_rows"] = frame_rows(env, case, frame0)
+            res["frame_cols"] = list(frame0.columns)
+        except Exception as e:  # noqa
+            res["frame_error"] = f"{type(e).__name__}: {e}"
+    try:
         with core.quiet():
-            ds = env.Dataset(data)
+            ds_obj = env.Dataset(data)
         res["phase"]["dataset"] = "ok"
-        res["ds"] = canon_dataset(env, ds, case["idkind"])
+        res["ds"] = canon_dataset(env, ds_obj, case["idkind"], case, full=True)
     except Exception as e:
         res["phase"]["dataset"] = env.err(e)
         res["unchanged"] = unchanged(env, df, snap)
         return res
     try:
         with core.quiet():
-            tab = ds.to_pandas()
+            tab = ds_obj.to_pandas()
         res["phase"]["table"] = "ok"
         res["table_rows"] = table_tokens(env, case, tab)
     except Exception as e:
         res["phase"]["table"] = env.err(e)
         res["unchanged"] = unchanged(env, df, snap)
         return res
+    re_kws = dict(kws)
     # (a) the regenerated table as it is (its TIME level is float32: the reader's 6-digit rounding then runs in float32 arithmetic)
     try:
         with core.quiet():
             tab_in = tab.reset_index()
             snap2 = snapshot(env, tab_in)
-            ds2d = env.Dataset(env.Data.from_dataframe(tab_in, dt, **kws))
+            ds2d = env.Dataset(env.Data.from_dataframe(tab_in, dt, **re_kws))
         res["phase"]["re_direct"] = "ok"
-        res["ds2d"] = canon_dataset(env, ds2d, case["idkind"])
+        res["ds2d"] = canon_dataset(env, ds2d, case["idkind"], case)
         res["unchanged2"] = unchanged(env, tab_in, snap2)
     except Exception as e:
         res["phase"]["re_direct"] = env.err(e)
@@ -431,11 +697,37 @@ def run_impl(env, case):
             tab_in = tab.reset_index()
             if "TIME" in tab_in.columns:
                 tab_in["TIME"] = tab_in["TIME"].astype("float64")
-            ds2 = env.Dataset(env.Data.from_dataframe(tab_in, dt, **kws))
+            ds2 = env.Dataset(env.Data.from_dataframe(tab_in, dt, **re_kws))
         res["phase"]["re"] = "ok"
-        res["ds2"] = canon_dataset(env, ds2, case["idkind"])
+        res["ds2"] = canon_dataset(env, ds2, case["idkind"], case)
     except Exception as e:
         res["phase"]["re"] = env.err(e)
+    if deep:
+        extra = []
+        try:
+            with core.quiet():
+                # the Data object after Dataset(data) and to_pandas: untouched (missing values still missing, same rows)
+                if frame0 is not None:
+                    again = data.to_dataframe()
+                    if list(again.columns) != list(frame0.columns) or frame_rows(env, case, again) != res.get("frame_rows"):
+                        extra.append("building the Dataset / converting it back modified the Data object (Data.to_dataframe differs before / after)")
+                    # the table form of the Data object, re-ingested with the same options: the very same tensors
+                    ds3 = canon_dataset(env, env.Dataset(env.Data.from_dataframe(frame0, dt, **re_kws)), case["idkind"], case)
+                    if ds3["str"] != res["ds"]["str"]:
+                        extra.append("re-ingesting Data.to_dataframe() does not give the same tensor dataset")
+                # a second Dataset of the same Data object
+                if canon_dataset(env, env.Dataset(data), case["idkind"], case)["str"] != res["ds"]["str"]:
+                    extra.append("a second Dataset built from the same Data object differs from the first")
+                # to_pandas restricted to the features
+                if ds_obj.headers is not None:
+                    only = ds_obj.to_pandas(apply_headers=True)
+                    if list(only.columns) != list(ds_obj.headers) or not only.equals(tab[list(ds_obj.headers)]):
+                        extra.append("to_pandas(apply_headers=True) is not the feature columns of to_pandas()")
+                if case["layout"] != "event":
+                    extra += sub_cohort(env, case, data, res["ds"])
+        except Exception as e:  # noqa
+            extra.append(f"conversion of an accepted table raised {type(e).__name__}: {str(e)[:120]}")
+        res["extra"] = extra
     res["unchanged"] = unchanged(env, df, snap)
     return res
 
@@ -495,31 +787,31 @@ def malformation(case):
     if not rows:
         return "empty-table"
     if lay in ("visit", "joint", "cov"):
-        if case.get("tnum", "float") not in ("float", "int"):
+        if case.get("tnum", "float") not in NUM_KINDS:
             return "non-numeric-age"
         if any(not isinstance(r[1], list) for r in rows):
             return "missing-or-infinite-age"
         keys = [(r[0], r[1][0]) for r in rows]
         if len(set(keys)) != len(keys):
             return "duplicate-visit"
-        if any(k not in ("float", "int") for k in (case.get("cols") or [])):
+        if any(k not in NUM_KINDS for k in (case.get("cols") or [])):
             return "non-numeric-value"
         if any(v in ("inf", "-inf") for r in rows for v in r[2]):
             return "infinite-value"
     if lay == "visit":
         if not rows[0][2]:
             return "no-feature"
-        if all(all(v == "nan" for v in r[2]) for r in rows):
+        if all(row_dropped(case, r) for r in rows):
             return "no-observation"
     if lay == "event":
         ids = [r[0] for r in rows]
         if len(set(ids)) != len(ids):
             return "duplicate-individual"
-        return event_malformation([(r[0], r[1], r[2]) for r in rows if not (r[1] == "nan" and r[2] == "nan")], case.get("nb"))
+        return event_malformation([(r[0], r[1], r[2]) for r in rows if not row_dropped(case, r)], case.get("nb"))
     if lay == "joint":
         if not rows[0][2]:
             return "no-feature"
-        kept = [r for r in rows if not (all(v == "nan" for v in r[2]) and r[3] == "nan" and r[4] == "nan")]
+        kept = [r for r in rows if not row_dropped(case, r)]
         m = event_malformation([(r[0], r[3], r[4]) for r in kept], case.get("nb"))
         if m:
             return m
@@ -539,7 +831,7 @@ def malformation(case):
             return "no-feature"
         if any(v in ("inf", "-inf") for r in rows for v in r[3]):
             return "infinite-value"
-        kept = [r for r in rows if not (all(v == "nan" for v in r[2]) and all(v == "nan" for v in r[3]))]
+        kept = [r for r in rows if not row_dropped(case, r)]
         if not kept:
             return "no-observation"
         if any(v == "nan" for r in kept for v in r[3]):
@@ -595,13 +887,7 @@ def reference(case):
     order, groups = [], {}
     for r in case["rows"]:
         vals = [val_frac(v) for v in r[2]]
-        if lay == "visit":
-            drop = all(v is None for v in vals)
-        elif lay == "joint":
-            drop = all(v is None for v in vals) and r[3] == "nan" and r[4] == "nan"
-        else:
-            drop = all(v is None for v in vals) and all(v == "nan" for v in r[3])
-        if drop:
+        if row_dropped(case, r):
             continue
         rk = id_rank(case["idkind"], r[0])
         if rk not in groups:
@@ -610,6 +896,8 @@ def reference(case):
         groups[rk].append((r[1][0], vals))
     for g in groups.values():
         g.sort(key=lambda x: x[0])
+    if opt(case, "sort_index"):
+        order = sorted(order)
     return order, groups
 
 
@@ -664,9 +952,7 @@ def expected_events(case):
     per, order = {}, []
     for r in case["rows"]:
         t, c = (r[1], r[2]) if lay == "event" else (r[3], r[4])
-        if lay == "joint" and all(v == "nan" for v in r[2]) and t == "nan" and c == "nan":
-            continue
-        if lay == "event" and t == "nan" and c == "nan":
+        if row_dropped(case, r):
             continue
         rk = id_rank(case["idkind"], r[0])
         if rk not in per:
@@ -674,6 +960,8 @@ def expected_events(case):
             order.append(rk)
     mx = max(c for _, c in per.values())
     nb = case.get("nb") or mx
+    if opt(case, "sort_index"):
+        order = sorted(order)
     return order, per, nb
 
 
@@ -688,15 +976,7 @@ def ghost_category(case):
     alive, seen = set(), set()
     for r in case["rows"]:
         seen.add(r[0])
-        if lay == "event":
-            drop = r[1] == "nan" and r[2] == "nan"
-        else:
-            drop = all(v == "nan" for v in r[2])
-            if lay == "joint":
-                drop = drop and r[3] == "nan" and r[4] == "nan"
-            if lay == "cov":
-                drop = drop and all(v == "nan" for v in r[3])
-        if not drop:
+        if not row_dropped(case, r):
             alive.add(r[0])
     return alive != seen
 
@@ -754,11 +1034,12 @@ def predicate(env, case, res):
             first = {}
             for r in case["rows"]:
                 rk = id_rank(case["idkind"], r[0])
-                dropped = all(v == "nan" for v in r[2]) and all(v == "nan" for v in r[3])
+                dropped = row_dropped(case, r)
                 if rk in groups and not dropped and rk not in first:
                     first[rk] = [int(Fraction(v)) for v in r[3]]
             if ds.get("covs") != [first[i] for i in order]:
                 fails.append((f"covariate tensor {ds.get('covs')} != {[first[i] for i in order]}", None))
+    fails += [(f, None) for f in api_fails(env, case, res)]
     # ----- round trip
     if ph.get("table") != "ok":
         fid = None
@@ -777,6 +1058,114 @@ def predicate(env, case, res):
     for ds2, exact in ((res["ds2"], is_exact_ages(env, case)), (res["ds2d"], False)):
         fails += roundtrip_fails(env, lay, ds, ds2, exact)
     return fails[:5]
+
+
+def api_fails(env, case, res):
+    """What else the objects expose about an accepted valid table: the `Data` object (orders, counters, names, table form),
+    the ancillary attributes of the `Dataset` (names, norms, per-individual getters, dtypes), sub-cohorts, repeated conversions."""
+    out = []
+    lay = case["layout"]
+    ds = res["ds"]
+    if lay == "event":
+        order, per, nb = expected_events(case)
+        groups, dim, names = None, None, None
+    else:
+        order, groups = reference(case)
+        dim = len(case["rows"][0][2])
+        names = expected_headers(case)
+        per = expected_events(case)[1] if lay == "joint" else None
+    evn = ev_names(case) if lay in ("event", "joint") else [None, None]
+    cvn = cov_names(case) if lay == "cov" else None
+    # ---- Data
+    if "data_api_error" in res:
+        out.append(f"reading the Data object raised {res['data_api_error']}")
+    d = res.get("data_api")
+    if d:
+        if d["ids"] != order:
+            out.append(f"Data.individuals lists {d['ids']}, expected {order}")
+        if not (d["iter_same"] and d["map_same"] and d["idx_same"] and d["positional"] and d["contains"]):
+            out.append("the orders the Data object exposes disagree (individuals / iteration / iter_to_idx / positional access / membership): "
+                       + str({k: d[k] for k in ("iter_same", "map_same", "idx_same", "positional", "contains")}))
+        if d["n_individuals"] != len(order):
+            out.append(f"Data.n_individuals = {d['n_individuals']} for {len(order)} individuals")
+        if d["headers"] != names or d["dimension"] != dim:
+            out.append(f"Data.headers / dimension = {d['headers']} / {d['dimension']}, the feature columns of the table are {names}")
+        if groups is not None and (d["nvis"] != [len(groups[i]) for i in order] or d["n_visits"] != sum(len(groups[i]) for i in order)):
+            out.append(f"Data: visits per individual {d['nvis']} (total {d['n_visits']}), expected {[len(groups[i]) for i in order]}")
+        if d["evnames"] != evn or d["covnames"] != cvn:
+            out.append(f"Data: event / covariate column names {d['evnames']} / {d['covnames']}, expected {evn} / {cvn}")
+    if "frame_error" in res:
+        out.append(f"Data.to_dataframe() raised {res['frame_error']}")
+    if "frame_rows" in res:
+        want = []
+        for i in order:
+            if lay == "event":
+                want.append((i, per[i][0], per[i][1]))
+                continue
+            for age, vals in groups[i]:
+                row = [i, age, tuple(vals)]
+                if lay == "joint":
+                    row += [per[i][0], per[i][1]]
+                if lay == "cov":
+                    first = next(r for r in case["rows"] if id_rank(case["idkind"], r[0]) == i and not row_dropped(case, r))
+                    row.append(tuple(int(Fraction(v)) for v in first[3]))
+                want.append(tuple(row))
+        got = []
+        for r in res["frame_rows"]:
+            r = list(r)
+            if lay == "event":
+                r[1] = mu_of(r[1])
+            else:
+                r[1] = mu_of(r[1])
+                if lay == "joint":
+                    r[3] = mu_of(r[3])
+            got.append(tuple(r))
+        if got != want:
+            k = next((j for j, (a, b) in enumerate(zip(got, want)) if a != b), min(len(got), len(want)))
+            out.append(f"Data.to_dataframe() is not the accepted table (individuals in order, visits by age): row {k} is "
+                       f"{got[k] if k < len(got) else None}, expected {want[k] if k < len(want) else None}")
+        if names is not None and [c for c in res["frame_cols"] if c in names] != names:
+            out.append(f"Data.to_dataframe(): feature columns {res['frame_cols']} are not in table order {names}")
+    # ---- Dataset
+    m = ds["meta"]
+    if m["n_individuals"] != len(order) or m["dimension"] != dim or m["headers"] != names:
+        out.append(f"Dataset: n_individuals / dimension / headers = {m['n_individuals']} / {m['dimension']} / {m['headers']}, expected "
+                   f"{len(order)} / {dim} / {names}")
+    if m["evnames"] != evn or m["covnames"] != cvn:
+        out.append(f"Dataset: event / covariate column names {m['evnames']} / {m['covnames']}, expected {evn} / {cvn}")
+    if "edtypes" in ds and ds["edtypes"] != ("torch.float64", "torch.bool"):
+        out.append(f"dtypes of the event tensors {ds['edtypes']}")
+    if "cdtype" in ds and ds["cdtype"] != "torch.int32":
+        out.append(f"dtype of the covariate tensor {ds['cdtype']}")
+    if "getters_error" in ds:
+        out.append(f"Dataset norms / per-individual getters raised {ds['getters_error']}")
+    if groups is not None and "getters" in ds and ds["ids"] == order:
+        np = env.np
+        sq = [Fraction(0)] * dim
+        cnt = [0] * dim
+        for a, i in enumerate(order):
+            times, vals = ds["getters"][a]
+            want_v = [[None if v is None else float(v) for v in vs] for _, vs in groups[i]]
+            got_v = [[None if x != x else x for x in row] for row in vals]
+            if times != ds["times_f"][a][:len(groups[i])]:
+                out.append(f"get_times_patient({a}) = {times} is not the ages of individual {i}")
+            if got_v != want_v:
+                out.append(f"get_values_patient({a}) is not the observations of individual {i} with nan at the missing entries")
+            for _, vs in groups[i]:
+                for k, v in enumerate(vs):
+                    if v is not None:
+                        sq[k] += v * v
+                        cnt[k] += 1
+        if "L2ft" in ds:
+            for k in range(dim):
+                tol = (cnt[k] + 2) * 2.0 ** -23 * float(sq[k]) + 1e-44
+                if not abs(ds["L2ft"][k] - float(sq[k])) <= tol:
+                    out.append(f"L2_norm_per_ft[{k}] = {ds['L2ft'][k]!r} is not the sum of the squared observed values {float(sq[k])!r}")
+            tot = float(sum(sq))
+            if not abs(ds["L2"] - tot) <= (sum(cnt) + dim + 2) * 2.0 ** -23 * tot + 1e-44:
+                out.append(f"L2_norm = {ds['L2']!r} is not the sum of the squared observed values {tot!r}")
+    out += res.get("extra", [])
+    return out[:4]
 
 
 def roundtrip_fails(env, lay, ds, ds2, exact):
@@ -819,11 +1208,17 @@ def model_line(case, rows=None):
     kind = case["idkind"]
     rk = lambda i: id_rank(kind, i)  # noqa: E731
     store = case.get("store", "f32")
+    if opt(case, "sort_index") and kind not in ID_KINDS_INVALID:
+        # reader option sort_index=True = the same table with its rows in lexicographic (ID, TIME) order (pandas contract, see
+        # trusted_extra); only done when every age is a number (any other table is refused whatever the order of its rows)
+        tpos = 1
+        if lay == "event" or all(isinstance(r[tpos], list) for r in rows):
+            rows = sorted(rows, key=(lambda r: rk(r[0])) if lay == "event" else (lambda r: (rk(r[0]), r[1][0])))
     if lay == "visit":
         cols = case.get("cols") or ["float"] * (len(rows[0][2]) if rows else 0)
         rs = ";".join(f"{rk(r[0])}:{age_model(r[1])}:{fmt_list([val_model(v) for v in r[2]])}" for r in rows) or "_"
-        tnum = "1" if case.get("tnum", "float") in ("float", "int") else "0"
-        return (f"visit id={MODEL_IDCOL[kind]} tnum={tnum} cols={fmt_list(['1' if c in ('float', 'int') else '0' for c in cols])} "
+        tnum = "1" if case.get("tnum", "float") in NUM_KINDS else "0"
+        return (f"visit id={MODEL_IDCOL[kind]} tnum={tnum} cols={fmt_list(['1' if c in NUM_KINDS else '0' for c in cols])} "
                 f"store={store} rows={rs}")
     if lay == "event":
         rs = ";".join(f"{rk(r[0])}:{age_model(r[1])}:{val_model(r[2])}" for r in rows) or "_"
@@ -842,12 +1237,14 @@ def model_line(case, rows=None):
 def model_expressible(case):
     """The Lean request syntax covers raw malformations for the visit layout and cell-level ones for the others."""
     lay = case["layout"]
+    if not opt(case, "drop_full_nan"):
+        return False            # the model always drops the rows that are entirely missing (the default of the reader)
     if lay == "visit":
         return True
     if case["idkind"] in ID_KINDS_INVALID or not case["rows"]:
         return False
     if lay in ("joint", "cov"):
-        if case.get("tnum", "float") not in ("float", "int") or any(k not in ("float", "int") for k in (case.get("cols") or [])):
+        if case.get("tnum", "float") not in NUM_KINDS or any(k not in NUM_KINDS for k in (case.get("cols") or [])):
             return False
         if any(not isinstance(r[1], list) for r in case["rows"]):
             return False
@@ -1441,6 +1838,230 @@ def addobs_cases(chk):
     return cases
 
 
+# --------------------------------------------------------------------------------------------- the same tables handed over differently
+class _Sub:
+    """a generator context with its own rng: the streams above keep theirs (same cases as before for a given seed)"""
+
+    def __init__(self, rng, tier):
+        self.rng, self.tier = rng, tier
+
+
+NAME_POOL = ["Y3", "Y1", "B", "a b", "Y0", "Z9", "y0", "Y10"]
+
+
+def decorate(env, rng, c):
+    """One generated table (valid or malformed), handed over in another of the forms the API accepts: column dtypes, index
+    layout, column names and order, reader options, entry point; ages moved to another time scale, values to another unit.
+    The oracle (`malformation`, `reference`, ...) reads the same keys, so the expected outcome follows."""
+    import json
+    c = json.loads(json.dumps({k: v for k, v in c.items() if k != "group"}))
+    lay, rows = c["layout"], c["rows"]
+    dim = len(rows[0][2]) if rows and lay != "event" else 0
+    tcol = 1
+    # ---- another time scale / another unit (exactly representable, so that every comparison stays exact)
+    exact = bool(rows) and all(isinstance(r[tcol], list) and r[tcol][1] == 0 and r[tcol][0] % 15625 == 0 for r in rows)
+    if exact and "tnum" not in c and rng.random() < 0.35:
+        how = rng.choice(["kilo", "days", "zero"] if lay in ("visit", "cov") else ["kilo", "days"])
+        if how == "zero":
+            shift = -rng.choice(rows)[1][0]
+        else:
+            shift = (1000 if how == "kilo" else 30000) * 1_000_000
+        for r in rows:
+            r[1] = [r[1][0] + shift, 0]
+            if lay == "joint" and isinstance(r[3], list):
+                r[3] = [r[3][0] + shift, r[3][1]]
+    scaled = False
+    if dim and "cols" not in c and rng.random() < 0.2:
+        scaled = True
+        f = Fraction(2) ** rng.choice([60, -40])
+        for r in rows:
+            r[2] = [v if v in ("nan", "inf", "-inf") else fmt_rat(Fraction(v) * f) for v in r[2]]
+    # ---- dtypes of the columns (the malformed stream sets non-numeric kinds itself: left alone)
+    if rows and lay != "event" and "tnum" not in c and rng.random() < 0.5:
+        c["tnum"] = rng.choice(compatible_kinds(env, [r[1] for r in rows], age=True))
+    if dim and "cols" not in c and rng.random() < 0.5:
+        c["cols"] = [rng.choice(compatible_kinds(env, [r[2][k] for r in rows])) for k in range(dim)]
+    if rows and lay in ("event", "joint") and rng.random() < 0.6:
+        t, b = (1, 2) if lay == "event" else (3, 4)
+        c["ecols"] = [rng.choice(compatible_kinds(env, [r[t] for r in rows], age=True)),
+                      rng.choice(compatible_kinds(env, [r[b] for r in rows]))]
+    if rows and lay == "cov" and c["ncov"] and rng.random() < 0.6:
+        c["ccols"] = [rng.choice(compatible_kinds(env, [r[3][k] for r in rows])) for k in range(c["ncov"])]
+    # ---- names and order of the columns
+    if dim and rng.random() < 0.4:
+        c["featnames"] = rng.sample(NAME_POOL, dim)
+    if lay in ("event", "joint") and rng.random() < 0.3:
+        c["evnames"] = rng.choice([["T_EVENT", "EVENT"], ["event_time", "event_bool"], ["EVENT_BOOL_TIME", "EVB"]])
+    if rows and rng.random() < 0.4:
+        names = ["ID"] + (["TIME"] if lay != "event" else []) + feat_names(c, dim)
+        names += (ev_names(c) if lay in ("event", "joint") else []) + (cov_names(c) if lay == "cov" else [])
+        rng.shuffle(names)
+        if lay in ("event", "joint"):      # the event reader wants the time column before the indicator column
+            tn, bn = ev_names(c)
+            i, j = names.index(tn), names.index(bn)
+            if i > j:
+                names[i], names[j] = names[j], names[i]
+        if lay == "cov":                   # covariates in the order of `covariate_names`
+            pos = sorted(names.index(n) for n in cov_names(c))
+            for q, n in zip(pos, cov_names(c)):
+                names[q] = n
+        c["colorder"] = names
+    # ---- index layout, reader options, entry point
+    if "index" not in c and rng.random() < 0.45:
+        # (pandas re-infers the dtype of a column that becomes an index level: an object-typed TIME column of numbers would
+        #  reach the reader as a float level, i.e. as another table - such columns stay columns)
+        plain = c.get("tnum", "float") in NUM_KINDS and c["idkind"] in ID_KINDS_VALID
+        levels = ((["set", "setrev"] if lay != "event" else []) + ["id"]) if plain else []
+        c["index"] = rng.choice(levels + ["rowdup", "rowstr", "rownamed"])
+    o = {}
+    if rng.random() < 0.35:
+        o["sort_index"] = True
+    if rng.random() < 0.3:
+        o["drop_full_nan"] = False
+    if rng.random() < 0.2:
+        o["warn_empty_column"] = False
+    if o:
+        c["opts"] = o
+    r = rng.random()
+    numeric = c.get("tnum", "float") in NUM_KINDS and all(k in NUM_KINDS for k in (c.get("cols") or []))
+    # (a float32 column is written to the file with the 8 significant digits of its float32 repr: another table)
+    used = [c.get("tnum")] + list(c.get("cols") or []) + list(c.get("ecols") or []) + list(c.get("ccols") or [])
+    numeric = numeric and "f32" not in used and "Float32" not in used
+    # (csv: numbers of at most 15 significant digits and small exponents only - pandas' default text-to-double conversion is exact for
+    #  those, it may be one ulp off for the 2^60 / 2^-40 units, which is pandas' matter)
+    if r < 0.3 and c["idkind"] in ("str", "numstr") and numeric and not scaled and c.get("index") in (None, "rowdup", "rowstr", "rownamed") and rows:
+        c["entry"] = "csv"
+    elif r < 0.6:
+        c["entry"] = rng.choice(["reader", "enum", "upper"])
+    return c
+
+
+def dtype_malformed_cases(chk, env, rng):
+    """Every cell-level malformation in every numeric dtype that can carry it: a missing age as nan or as pd.NA (nullable Float64 /
+    Float32 / Int64), an infinite age, an infinite value, in float64 / float32 / nullable columns; visit, joint and covariate layouts,
+    the TIME column as a column or as an index level."""
+    sub = _Sub(rng, "quick")
+    pools = {"visit": visit_cases(sub)[-200:], "joint": joint_cases(sub), "cov": cov_cases(sub)}
+    cases = []
+    for lay, pool in pools.items():
+        valid = [c for c in pool if malformation(c) is None and 2 <= len(c["rows"]) <= 8]
+        for what, kinds in (("nan", ["float", "f32", "Float64", "Float32", "Int64"]), ("inf", ["float", "f32", "Float64", "Float32"]),
+                            ("vinf", ["float", "f32", "Float64", "Float32"])):
+            for kind in kinds:
+                import json
+                c = json.loads(json.dumps({k: v for k, v in rng.choice(valid).items() if k != "group"}))
+                rows = c["rows"]
+                if what == "vinf":
+                    r = rng.choice(rows)
+                    k = rng.randrange(len(r[2]))
+                    r[2][k] = rng.choice(["inf", "-inf"])
+                    cols = ["float"] * len(r[2])
+                    cols[k] = kind
+                    c["cols"] = cols
+                else:
+                    if kind == "Int64":      # whole years, so that the column is an integer column with one pd.NA
+                        for j, r in enumerate(rows):
+                            r[1] = [(40 + 3 * j) * 1_000_000, 0]
+                            if lay == "joint":
+                                r[3] = [200 * 1_000_000, 0]
+                    elif kind in ("f32", "Float32"):
+                        for j, r in enumerate(rows):
+                            r[1] = [(40 * 64 + 5 * j) * 15625, 0]
+                            if lay == "joint":
+                                r[3] = [200 * 1_000_000, 0]
+                    rng.choice(rows)[1] = "nan" if what == "nan" else rng.choice(["inf", "-inf"])
+                    c["tnum"] = kind
+                    if rng.random() < 0.3 and c["idkind"] in ID_KINDS_VALID and kind != "Int64":
+                        c["index"] = rng.choice(["set", "setrev"])
+                cases.append(c)
+    return cases
+
+
+def variant_cases(chk, env, rng):
+    thorough = chk.tier == "thorough"
+    sub = _Sub(rng, "quick")
+    pools = [(visit_cases(sub), 50), (malformed_visit_cases(sub), 20), (event_cases(sub), 25),
+             (joint_cases(sub) + joint_between_cases(sub), 35), (cov_cases(sub) + cov_within_cases(sub), 35),
+             (check_order_cases(sub), 10)]
+    cases = []
+    for rounds in range(5 if thorough else 1):
+        for pool, n in pools:
+            for base in rng.sample(pool, min(n, len(pool))):
+                cases.append(decorate(env, rng, base))
+    return cases
+
+
+def reader_reuse_cases(chk, env, rng):
+    """One reader instance handed over for two tables in a row (`data_type` accepts an instance): the second `Data` must be the one
+    a fresh reader gives for the second table, and the first `Data` must stay what it was."""
+    sub = _Sub(rng, "quick")
+    pools = {"visit": [c for c in visit_cases(sub)[-120:]], "event": event_cases(sub), "joint": joint_cases(sub), "cov": cov_cases(sub)}
+    n = 0
+    for lay, pool in pools.items():
+        valid = [c for c in pool if malformation(c) is None and c["idkind"] in ("str", "int", "numstr") and len(c["rows"]) <= 8]
+        for _ in range(6 if chk.tier == "thorough" else 2):
+            if len(valid) < 2:
+                break
+            a = rng.choice(valid)
+            same = [c for c in valid if c is not a and c["idkind"] == a["idkind"]]
+            if not same:
+                continue
+            b = rng.choice(same)
+            a = {k: v for k, v in a.items() if k != "group"}
+            b = {k: v for k, v in b.items() if k != "group"}
+            if lay == "cov" and a["ncov"] != b["ncov"]:
+                b = {**a, "rows": list(reversed(a["rows"]))}
+            if lay in ("event", "joint"):
+                b = {**b, "nb": a.get("nb")}          # the reader is built once, with the request of the first table
+                if malformation(b) is not None:
+                    continue
+            cj = {"kind": "reader-reuse", "first": a, "second": b}
+            run_reader_reuse(chk, env, cj)
+            n += 1
+    return n
+
+
+def run_reader_reuse(chk, env, cj):
+    a, b = cj["first"], cj["second"]
+    try:
+        dfa, dfb = build_df(env, a), build_df(env, b)
+        dt, kws = reader_args(a)
+        fk = kws.pop("factory_kws", {})
+        with core.quiet():
+            fresh = env.Data.from_dataframe(dfb, env.factory(dt, **fk), **kws)
+            fresh_b = canon_dataset(env, env.Dataset(fresh), b["idkind"], b)
+            reader = env.factory(dt, **fk)
+            d1 = env.Data.from_dataframe(dfa, reader, **kws)
+            c1 = canon_dataset(env, env.Dataset(d1), a["idkind"], a)
+            ids1 = list(d1.individuals)
+    except Exception as e:  # noqa
+        chk.impl_failure(cj, f"valid table refused ({env.err(e)})")
+        return
+    what, merged = None, False
+    try:
+        with core.quiet():
+            d2 = env.Data.from_dataframe(dfb, reader, **kws)
+        # F120 region, recomputed from the objects: the new Data holds an individual its table does not have, or counts on from
+        # the earlier table, or the earlier Data has grown
+        merged = (any(i not in fresh.individuals for i in d2.individuals) or list(d2.iter_to_idx) != list(range(len(fresh.individuals)))
+                  or list(d1.individuals) != ids1)
+        with core.quiet():
+            c2 = canon_dataset(env, env.Dataset(d2), b["idkind"], b)
+            c1_after = canon_dataset(env, env.Dataset(d1), a["idkind"], a)
+        if c2["str"] != fresh_b["str"]:
+            what = (f"the second table read with the same reader gives individuals {c2['ids']}, a fresh reader gives {fresh_b['ids']}"
+                    if c2["ids"] != fresh_b["ids"] else "the second table read with the same reader gives other tensors than a fresh reader")
+        elif c1_after["str"] != c1["str"]:
+            what = f"reading a second table changed the Data object of the first one: individuals {c1['ids']} -> {c1_after['ids']}"
+    except Exception as e:  # noqa
+        msg = str(e)
+        merged = merged or "number of events you provided is different" in msg
+        what = f"the second (valid) table cannot be used after the reader has read another table: {env.err(e)}: {msg[:100]}"
+    if what:
+        chk.impl_failure(cj, what, finding="F120" if merged else None)
+    chk.case(("reuse", repr(cj)), nontrivial=True, tags={"stream": "reader-reuse", "layout": a["layout"], "outcome": "differs" if what else "same"})
+
+
 # --------------------------------------------------------------------------------------------- driver of the run
 def nontrivial(case, res):
     if case["layout"] == "addobs":
@@ -1474,6 +2095,9 @@ def handle_table_cases(chk, env, cases, stream):
                  sample=pub if (len(pub["rows"]) in (3, 4) and chk.hist.get("sampled", {}).get(stream) is None
                                 and not chk.tag("sampled", stream)) else None,
                  tags={"stream": stream, "layout": case["layout"], "idkind": case["idkind"], "outcome": outcome,
+                       "entry": case.get("entry", "df"), "index": case.get("index", "columns"),
+                       "options": ",".join(f"{k}={v}" for k, v in sorted((case.get("opts") or {}).items())) or "default",
+                       "time_dtype": case.get("tnum", "float"),
                        "n_rows": min(len(case["rows"]), 10) if len(case["rows"]) < 10 else "10+",
                        "malformation": mal or "none"})
         if mal and outcome not in ("accepted",):
@@ -1489,6 +2113,11 @@ def handle_table_cases(chk, env, cases, stream):
 
 def run(chk: core.Check):
     env = Env()
+    env.deep_every = 1 if chk.tier == "thorough" else 6
+    if getattr(chk, "_tmp", None):
+        import os
+        os.makedirs(str(chk._tmp), exist_ok=True)
+        env.tmpdir = str(chk._tmp)
     chk.max_samples = 8
     chk.rule = ("tables generated from the seeded rng: every row permutation of small visit / event / joint / covariate tables (<= 5 rows), "
                 "random shuffles of larger ones, nine valid and eleven invalid identifier kinds, ages k/64 (exact in float32) plus "
@@ -1498,7 +2127,17 @@ def run(chk: core.Check):
                 "with two malformations at once (rejection reason compared with the model's tag) and schema-level cases; every order and split of "
                 "add_observations calls on <= 4 ages. Each case runs from_dataframe -> Dataset -> to_pandas -> re-ingest on the real code with a deep "
                 "snapshot of the caller's table, evaluates the property predicate, and is compared with the Lean model. "
-                "Non-trivial = refused table, or >= 2 rows with a repeated or unsorted identifier; distinct by full table.")
+                "Non-trivial = refused table, or >= 2 rows with a repeated or unsorted identifier; distinct by full table. "
+                "A further stream hands the same kinds of tables (valid and malformed, all four layouts) over in the other forms the API accepts: "
+                "column dtypes (float32, int32, python int, nullable Int64 / Float64 with pd.NA, bool) for ages, values, event and covariate columns; "
+                "ID / TIME as index levels in either order or meaningless row labels (duplicated, strings, named); unsorted feature names, permuted "
+                "columns, custom event column names; reader options sort_index / drop_full_nan=False / warn_empty_column=False on every layout; entry "
+                "points Data.from_csv_file (table written to disk), a reader instance, the enum member, another letter case; ages on other time "
+                "scales (+1000, +30000, a visit at exactly 0) and values in other units (x 2^60, x 2^-40). On every accepted table the Data object "
+                "(three orders, counters, names), the Dataset's ancillary attributes (headers, norms, per-individual getters, dtypes) are checked; "
+                "on a sample (all in the thorough tier) also Data.to_dataframe (contents, re-ingestion), Data untouched by the conversions, a second "
+                "Dataset of the same Data, to_pandas(apply_headers=True) and sub-cohorts Data[[...]] / Data[a:b]. One reader instance is used for two "
+                "tables in a row (F120).")
     for c in core.load_corpus(PROP):
         one_case(chk, env, c)
     handle_table_cases(chk, env, visit_cases(chk), "visit-valid")
@@ -1538,6 +2177,12 @@ def run(chk: core.Check):
     want = fmt_list([mu_of(np.float64(np.float32(np.float64(a) / 1e6))) for a in ages])
     if back != want:
         chk.disagree({"layout": "store", "ages": ages}, want[:200], back[:200], "single-precision read-back of ages (driver instance of `store`)")
+    # the same kinds of tables in the other forms the API accepts (own rng: the streams above are those of the earlier versions)
+    import random as _random
+    rng2 = _random.Random(chk.rng.getrandbits(64))
+    handle_table_cases(chk, env, variant_cases(chk, env, rng2), "variants")
+    handle_table_cases(chk, env, dtype_malformed_cases(chk, env, rng2), "malformation-x-dtype")
+    reader_reuse_cases(chk, env, rng2)
     # known findings: probe the witnesses
     probe_findings(chk, env)
     chk.hist.pop("sampled", None)
@@ -1601,6 +2246,16 @@ def probe_findings(chk, env):
                                            f"({res['ds']['times_f'][0]}), and to_pandas raises {res['phase'].get('table')}")
     elif any(f.get("id") == "F9" and f.get("status") == "finding" for f in chk.findings):
         chk.note("finding F9 no longer reproduces")
+    pd = env.pd
+    reader = env.factory("visit")
+    with core.quiet():
+        d1 = env.Data.from_dataframe(pd.DataFrame({"ID": ["b", "a", "b"], "TIME": [70., 71., 72.], "Y0": [.5, .25, .75]}), reader)
+        d2 = env.Data.from_dataframe(pd.DataFrame({"ID": ["c", "d"], "TIME": [60., 61.], "Y0": [.5, .25]}), reader)
+    if list(d2.individuals) != ["c", "d"] or list(d1.individuals) != ["b", "a"]:
+        chk.known_finding_reproduces("F120", "one VisitDataframeDataReader instance given as data_type for two tables: the second Data holds "
+                                             f"{list(d2.individuals)} (its table has c, d) and the first Data now holds {list(d1.individuals)} (its table has b, a)")
+    elif any(f.get("id") == "F120" and f.get("status") == "finding" for f in chk.findings):
+        chk.note("finding F120 no longer reproduces")
 
 
 def one_case(chk, env, case):
@@ -1627,6 +2282,8 @@ def one_case(chk, env, case):
         if back != want:
             chk.disagree(case, want[:200], back[:200], "single-precision read-back of ages")
         chk.case(("st", 0), sample=None)
+    elif case.get("kind") == "reader-reuse":
+        run_reader_reuse(chk, env, case)
     elif "base" in case and "permuted" in case:
         handle_table_cases(chk, env, [{**case["base"], "group": "g"}, {**case["permuted"], "group": "g"}], "replay")
     else:
